@@ -769,3 +769,125 @@ func c14Stress(c *Ctx, cs c14Case) {
 		r.Obs("stress_ev_"+k, v)
 	}
 }
+
+// ---------------------------------------------------------------- C07 (directed: observers while the sweep is in progress)
+
+func init() { registry["C07D"] = runC07Directed }
+
+// runC07Directed: entries whose TTL has elapsed are observed by Get, GetTTL and IterValues while the sweep is held
+// right after it grabbed their bucket, and before the n-th per-key check: expired items must not be yielded
+// "whether or not the background sweep has run yet" - including while it is running.
+func runC07Directed(c *Ctx) {
+	r := c.R
+	r.Rule = "directed: 4 keys with ttl 300 ms in one 1-second bucket plus one key without ttl; the sweep is held after the bucket grab / before the 1st, 2nd, 4th per-key check; Get, GetTTL and IterValues are issued during the hold (all started long after the latest possible expiration); distinct by (hold position, nth, observer)"
+	ristretto.VerifSetBucketSeconds(1)
+	c14Prop = "C07"
+	rounds := c.N(2, 12)
+	for round := 0; round < rounds; round++ {
+		var wg sync.WaitGroup
+		idx := 0
+		for _, pos := range []string{"after-grab", "before-check"} {
+			for _, nth := range []int{1, 2, 4} {
+				for rep := 0; rep < 3; rep++ {
+					idx++
+					if (idx+round)%c.NParts != c.Part {
+						continue
+					}
+					wg.Add(1)
+					go func(pos string, nth int, stream uint64) {
+						defer wg.Done()
+						c07Held(c, c14Case{Kind: "c07-during-sweep", Position: pos, Nth: nth, NKeys: 4, Stream: stream})
+					}(pos, nth, uint64(round*100+idx))
+				}
+			}
+		}
+		wg.Wait()
+	}
+}
+
+func c07Held(c *Ctx, cs c14Case) {
+	r := c.R
+	r.Eval(1)
+	c.J.Case(cs)
+	e := newC14Env(c, cs, cs.NKeys+1, 0)
+	if e == nil {
+		return
+	}
+	defer e.l.Forget()
+	l, cl := e.l, e.cl
+	defer func() {
+		e.sw.releaseHold()
+		l.C.Close()
+	}()
+	ctlKey := cs.NKeys
+	ctlVal := cl.NextVal(ctlKey)
+	cl.Set(ctlKey, ctlVal, 1, 0)
+	cl.Wait()
+	alignToBucket()
+	const ttl = 300 * time.Millisecond
+	t0 := time.Now()
+	vals := map[uint64]bool{}
+	for k := 0; k < cs.NKeys; k++ {
+		v := cl.NextVal(k)
+		vals[v] = true
+		if !cl.Set(k, v, 1, ttl) {
+			r.Inconc(1)
+			return
+		}
+	}
+	cl.Wait()
+	t1 := time.Now()
+	bucket := uint64(ristretto.VerifStorageBucket(t0.Add(ttl)))
+	if ristretto.VerifStorageBucket(t1.Add(ttl)) != int64(bucket) {
+		r.Inconc(1)
+		return
+	}
+	targets := map[uint64]bool{}
+	for k := 0; k < cs.NKeys; k++ {
+		targets[l.Hashes[k][0]] = true
+	}
+	if cs.Position == "after-grab" {
+		e.sw.arm(ristretto.VPSweepGrabbed, 1, bucket, nil)
+	} else {
+		e.sw.arm(ristretto.VPSweepKey, cs.Nth, 0, targets)
+	}
+	if !e.sw.waitFor(func() bool { return e.sw.reached }, 6*time.Second) {
+		r.Inconc(1)
+		return
+	}
+	if !time.Now().After(t1.Add(ttl)) {
+		r.Inconc(1) // cannot happen (the bucket is swept after it has passed); kept for soundness
+		return
+	}
+	e.tr("sweep held at %s; observing", cs.Position)
+	for k := 0; k < cs.NKeys; k++ {
+		if v, ok := cl.Get(k); ok {
+			e.fail("served-after-expiry/get-during-sweep", fmt.Sprintf("Get(key %d) returned %#x while the sweep of its bucket was in progress, %v after the latest possible expiration", k, v, time.Since(t1.Add(ttl)).Round(time.Millisecond)))
+			break
+		}
+		if d, ok := cl.GetTTL(k); ok {
+			e.fail("served-after-expiry/getttl-during-sweep", fmt.Sprintf("GetTTL(key %d) = (%v, true) while the sweep of its bucket was in progress", k, d))
+			break
+		}
+	}
+	seenCtl := false
+	for _, v := range cl.IterValues(-1) {
+		if vals[v] {
+			e.fail("served-after-expiry/iter-during-sweep", fmt.Sprintf("IterValues yielded %#x while the sweep of its bucket was in progress, %v after the latest possible expiration", v, time.Since(t1.Add(ttl)).Round(time.Millisecond)))
+		}
+		if v == ctlVal {
+			seenCtl = true
+		}
+	}
+	if !seenCtl {
+		e.fail("hidden-before-expiry/iter-during-sweep", "IterValues did not yield the key written without ttl")
+	}
+	if v, ok := cl.Get(ctlKey); !ok || v != ctlVal {
+		e.fail("hidden-before-expiry/get-during-sweep", "the key written without ttl is not retrievable during the sweep")
+	}
+	e.sw.releaseHold()
+	for _, ob := range []string{"get", "getttl", "iter"} {
+		r.DistinctKey("c07d/%s/%d/%s", cs.Position, cs.Nth, ob)
+	}
+	r.Obs("observations_during_held_sweep", int64(3*cs.NKeys))
+}
